@@ -195,6 +195,9 @@ def relayTop {c : SBody} (m : MonId) (y : YV) (cs : CSt c.σ) (env : Env) : Sys 
 def relayAfter {c : SBody} (m : MonId) : CSt c.σ × SOut × Env → Sys c × CallOut
   | (cs, .yield y, env) => relayTop m y cs env
   | (cs, .ret v, env) => (⟨cs, env.set m 0⟩, .returned v)
+  -- `except StopIteration as exc: return exc.value` also catches a StopIteration *object* that was
+  -- thrown into a never-started coroutine and came straight back (no frame ran, so no PEP 479)
+  | (cs, .raise (.stopIter v), env) => (⟨cs, env.set m 0⟩, .returned v)
   | (cs, .raise e, env) => (⟨cs, env.set m 0⟩, .raised e)
 
 /-- first activation of the generator: lines 76-86, then the loop.
